@@ -264,6 +264,7 @@ func (t *thread) block(canRun func() bool, desc string) {
 // pickNext chooses the thread to run when `from` cannot continue (blocked or
 // done).  The choice among several enabled threads is a free decision.
 func (r *run) pickNext(from *thread) *thread {
+	fired := 0
 	for {
 		var en []*thread
 		for _, u := range r.threads {
@@ -283,9 +284,11 @@ func (r *run) pickNext(from *thread) *thread {
 			}
 		}
 		// time may pass: fire the earliest pending timer
-		if r.fireNextTimer() {
+		if fired < 32 && r.fireNextTimer() {
+			fired++
 			continue
 		}
+		// (a ticker that keeps firing while nothing else can ever run is a deadlock, not progress)
 		return nil
 	}
 }
